@@ -1,0 +1,190 @@
+//! The runtime seam: thin entry points that forward to an installed [`SimRuntime`].
+
+use std::sync::atomic::{AtomicU32, Ordering};
+use std::sync::OnceLock;
+
+/// Implemented by the simulator.
+pub trait SimRuntime: Sync + Send {
+    /// A cooperative scheduling point.  The runtime may switch to another thread.
+    fn yield_point(&self, site: u32);
+    /// The calling thread is spinning: it cannot make progress until another thread has stepped.
+    fn spin_hint(&self, site: u32);
+    /// `try_lock` on `lock` failed: block the caller until `lock` has been released.
+    fn lock_blocked(&self, lock: usize);
+    /// A guard of `lock` was dropped.
+    fn lock_released(&self, lock: usize);
+    /// Wait on condition variable `cv` (the mutex is already released).  Returns when notified
+    /// (or spuriously woken by the simulator).
+    fn cv_wait(&self, cv: usize);
+    /// Notify one or all waiters of `cv`.
+    fn cv_notify(&self, cv: usize, all: bool);
+    /// An observation with no scheduling effect.
+    fn event(&self, kind: u32, a: usize, b: usize, c: usize);
+    /// An observation with a string payload (e.g. a work packet type name).
+    fn event_str(&self, kind: u32, a: usize, s: &str);
+    /// Should the fault `kind` be injected now?
+    fn fault(&self, kind: u32, arg: usize) -> bool;
+    /// Simulated monotonic clock, nanoseconds.
+    fn now_ns(&self) -> u64;
+    /// Is the calling thread under control of the simulator?
+    fn is_sim_thread(&self) -> bool;
+}
+
+static RUNTIME: OnceLock<&'static dyn SimRuntime> = OnceLock::new();
+static SITE_MASK: AtomicU32 = AtomicU32::new(0);
+
+/// Install the runtime.  Can be done once per process.
+pub fn install(rt: &'static dyn SimRuntime) {
+    if RUNTIME.set(rt).is_err() {
+        panic!("verif runtime already installed");
+    }
+}
+
+/// Enable the site classes in `mask` (see [`site`]).
+pub fn set_site_mask(mask: u32) {
+    SITE_MASK.store(mask, Ordering::SeqCst);
+}
+
+pub fn site_mask() -> u32 {
+    SITE_MASK.load(Ordering::Relaxed)
+}
+
+pub fn runtime() -> Option<&'static dyn SimRuntime> {
+    RUNTIME.get().copied()
+}
+
+/// The runtime, but only if the current thread is simulated.
+pub fn sim() -> Option<&'static dyn SimRuntime> {
+    match RUNTIME.get() {
+        Some(rt) if rt.is_sim_thread() => Some(*rt),
+        _ => None,
+    }
+}
+
+/// Site identifiers: `class << 16 | index`.  A class is one bit of the site mask.
+pub mod site {
+    pub const CLASS_LOCK: u32 = 1 << 0;
+    pub const CLASS_SCHED: u32 = 1 << 1;
+    pub const CLASS_META_OBJ: u32 = 1 << 2;
+    pub const CLASS_META_RAW: u32 = 1 << 3;
+    pub const CLASS_SPIN: u32 = 1 << 4;
+    pub const CLASS_POOL: u32 = 1 << 5;
+    pub const CLASS_ALLOC: u32 = 1 << 6;
+    pub const CLASS_BINDING: u32 = 1 << 7;
+
+    pub const fn mk(class: u32, idx: u32) -> u32 {
+        (class << 16) | idx
+    }
+    pub const fn class_of(site: u32) -> u32 {
+        site >> 16
+    }
+
+    pub const LOCK_MUTEX: u32 = mk(CLASS_LOCK, 1);
+    pub const LOCK_RWLOCK_R: u32 = mk(CLASS_LOCK, 2);
+    pub const LOCK_RWLOCK_W: u32 = mk(CLASS_LOCK, 3);
+    pub const LOCK_SPIN: u32 = mk(CLASS_LOCK, 4);
+    pub const LOCK_CV_NOTIFY: u32 = mk(CLASS_LOCK, 5);
+    pub const LOCK_UNLOCK: u32 = mk(CLASS_LOCK, 6);
+
+    pub const SCHED_BUCKET_ADD: u32 = mk(CLASS_SCHED, 1);
+    pub const SCHED_BUCKET_POLL: u32 = mk(CLASS_SCHED, 2);
+    pub const SCHED_BUCKET_OPEN: u32 = mk(CLASS_SCHED, 3);
+    pub const SCHED_SENTINEL: u32 = mk(CLASS_SCHED, 4);
+    pub const SCHED_TRIGGER_REQUEST: u32 = mk(CLASS_SCHED, 5);
+    pub const SCHED_TRIGGER_CLEAR: u32 = mk(CLASS_SCHED, 6);
+    pub const SCHED_WORKER_LOOP: u32 = mk(CLASS_SCHED, 7);
+    pub const SCHED_DESIGNATED: u32 = mk(CLASS_SCHED, 8);
+    pub const SCHED_SURRENDER: u32 = mk(CLASS_SCHED, 9);
+    pub const SCHED_POLL_STEAL: u32 = mk(CLASS_SCHED, 10);
+
+    pub const META_LOAD: u32 = mk(CLASS_META_OBJ, 1);
+    pub const META_STORE: u32 = mk(CLASS_META_OBJ, 2);
+    pub const META_CAS: u32 = mk(CLASS_META_OBJ, 3);
+    pub const META_FETCH: u32 = mk(CLASS_META_OBJ, 4);
+
+    pub const RAW_LOAD: u32 = mk(CLASS_META_RAW, 1);
+    pub const RAW_STORE: u32 = mk(CLASS_META_RAW, 2);
+    pub const RAW_CAS: u32 = mk(CLASS_META_RAW, 3);
+    pub const RAW_FETCH: u32 = mk(CLASS_META_RAW, 4);
+    pub const RAW_BULK_EDGE: u32 = mk(CLASS_META_RAW, 5);
+
+    pub const SPIN_FORWARDING: u32 = mk(CLASS_SPIN, 1);
+    pub const SPIN_STEAL_RETRY: u32 = mk(CLASS_SPIN, 2);
+
+    pub const POOL_QUEUE: u32 = mk(CLASS_POOL, 1);
+    pub const POOL_POOL: u32 = mk(CLASS_POOL, 2);
+
+    pub const ALLOC_ACQUIRE: u32 = mk(CLASS_ALLOC, 1);
+    pub const ALLOC_SLOW: u32 = mk(CLASS_ALLOC, 2);
+    pub const ALLOC_POLL: u32 = mk(CLASS_ALLOC, 3);
+}
+
+/// Event kinds (observations).
+pub mod ev {
+    pub const PACKET_ADD: u32 = 1; // a = stage, s = type name (event_str), or a=stage b=count
+    pub const PACKET_RUN: u32 = 2; // a = worker ordinal, s = type name
+    pub const PACKET_DONE: u32 = 3; // a = worker ordinal
+    pub const BUCKET_OPEN: u32 = 4; // a = stage
+    pub const BUCKET_CLOSE: u32 = 5; // a = stage
+    pub const WORKER_PARK: u32 = 6; // a = ordinal, b = parked count after, c = all parked
+    pub const WORKER_UNPARK: u32 = 7; // a = ordinal
+    pub const LAST_PARKED: u32 = 8; // a = ordinal, b = result (0 ParkSelf, 1 WakeSelf, 2 WakeAll)
+    pub const GOAL_REQUEST: u32 = 9; // a = goal, b = newly requested
+    pub const GOAL_START: u32 = 10; // a = goal
+    pub const GOAL_DONE: u32 = 11; // a = goal
+    pub const PAGES_GRANT: u32 = 12; // a = space index, b = start, c = pages
+    pub const PAGES_RELEASE: u32 = 13; // a = space index, b = start, c = pages
+    pub const MMAP: u32 = 14; // a = start, b = bytes, c = kind<<1 | ok
+    pub const ADD_ENTER: u32 = 15; // a thread is inside add/bulk_add/make_request
+    pub const ADD_EXIT: u32 = 16;
+    pub const CHUNK_ALLOC: u32 = 17; // a = start, b = chunks, c = space descriptor
+    pub const CHUNK_FREE: u32 = 18; // a = start, b = chunks
+    pub const GC_KIND: u32 = 19; // a = flags
+    pub const WORKER_EXIT: u32 = 20; // a = ordinal
+    pub const HOLE: u32 = 21; // a = start, b = end (immix hole handed to an allocator)
+    pub const LOS_SWEEP: u32 = 22; // a = object, b = nursery?
+    pub const HEAP_PAGES: u32 = 23; // a = current heap pages (dynamic trigger)
+}
+
+/// Fault kinds.
+pub mod fault {
+    pub const MMAP: u32 = 1;
+}
+
+#[inline(always)]
+pub fn yield_point(site: u32) {
+    if SITE_MASK.load(Ordering::Relaxed) & site::class_of(site) != 0 {
+        if let Some(rt) = RUNTIME.get() {
+            rt.yield_point(site);
+        }
+    }
+}
+
+#[inline(always)]
+pub fn spin_hint(site: u32) {
+    if let Some(rt) = RUNTIME.get() {
+        rt.spin_hint(site);
+    }
+}
+
+#[inline(always)]
+pub fn event(kind: u32, a: usize, b: usize, c: usize) {
+    if let Some(rt) = RUNTIME.get() {
+        rt.event(kind, a, b, c);
+    }
+}
+
+#[inline(always)]
+pub fn event_str(kind: u32, a: usize, s: &str) {
+    if let Some(rt) = RUNTIME.get() {
+        rt.event_str(kind, a, s);
+    }
+}
+
+#[inline(always)]
+pub fn fault(kind: u32, arg: usize) -> bool {
+    match RUNTIME.get() {
+        Some(rt) => rt.fault(kind, arg),
+        None => false,
+    }
+}
